@@ -852,6 +852,63 @@ func main() {
 		}
 	}
 
+	// strings of ONE list (a nested array value of a matrix row, the elements of `needs`-free lists of
+	// the job): the diagnostics of an element do not depend on the other elements of the list
+	{
+		lr := hx.NewRng(*seed + 9)
+		pool := []string{"1", "true", "s", "null", "${{ fromJSON('1') }}", "${{ zzbad1 }}", "${{ github.nonexistent }}", "'${{ 1 == }}'", "${{ matrix.nope }}", "${{ fromJSON(github.sha) }}", "{a: 1}", "${{ github.sha }}"}
+		ll := newLinter()
+		for c := 0; c < 60; c++ {
+			k := 2 + lr.Intn(4)
+			var els []string
+			for i := 0; i < k; i++ {
+				els = append(els, lr.Pick(pool))
+			}
+			build := func(only int) string {
+				var b strings.Builder
+				b.WriteString("on: push\njobs:\n  test:\n    runs-on: ubuntu-latest\n    strategy:\n      matrix:\n        v:\n")
+				for i, e := range els {
+					if only >= 0 && i != only {
+						e = "x"
+					}
+					if i == 0 {
+						b.WriteString("          - - " + e + "\n")
+					} else {
+						b.WriteString("            - " + e + "\n")
+					}
+				}
+				b.WriteString("    steps:\n      - run: echo\n")
+				return b.String()
+			}
+			full := build(-1)
+			df, err := lintSrc(ll, full)
+			hx.Must(err)
+			for i := range els {
+				alone := build(i)
+				da, err := lintSrc(ll, alone)
+				hx.Must(err)
+				sum.Evaluations++
+				sum.Dist["list_element_independence"]++
+				line := 8 + i
+				var a, f []string
+				for _, d := range da {
+					if d.Line == line {
+						a = append(a, fmt.Sprintf("%d:%d [%s] %s", d.Line, d.Col, d.Kind, d.Msg))
+					}
+				}
+				for _, d := range df {
+					if d.Line == line {
+						f = append(f, fmt.Sprintf("%d:%d [%s] %s", d.Line, d.Col, d.Kind, d.Msg))
+					}
+				}
+				if strings.Join(a, "\n") != strings.Join(f, "\n") {
+					sum.OracleFails = append(sum.OracleFails, failure{What: "the diagnostics of one element of a nested array value of a matrix row change with the other elements of the list",
+						Key: "list-element:" + els[i], Level: "strings", Source: full, Part: els[i], Alone: a, Composed: f, AloneSrc: alone})
+				}
+			}
+		}
+	}
+
 	// K2
 	terms, efails, estats := runExprCases(hx.NewRng(*seed+2), *nexpr)
 	hx.Must(os.WriteFile(filepath.Join(*out, "cases_expr.txt"), []byte(strings.Join(terms, "\n")+"\n"), 0o644))
